@@ -414,7 +414,9 @@ func genCrash(r *rand.Rand, n int, tier string, out *bufio.Writer) {
 	genWriter(r, n, tier, bw)
 	bw.Flush()
 	for _, l := range strings.Split(strings.TrimSpace(b.String()), "\n") {
-		fmt.Fprintln(out, "crash"+strings.TrimPrefix(l, "writer"))
+		// scenario: 0 plain, 1 a leftover in-progress file of a killed earlier process has the first
+		// name, 2 another goroutine calls Rotate while a record is half written
+		fmt.Fprintf(out, "crash %d %d%s\n", pick(r, []int{0, 0, 1, 2, 2}), r.Intn(6), strings.TrimPrefix(l, "writer"))
 	}
 }
 
@@ -426,6 +428,7 @@ type snapshot struct {
 
 func runCrash(toks []string) (string, string) {
 	t := &tokens{t: toks}
+	scen, scenK := t.nextInt(), t.nextInt()
 	max := t.nextInt64()
 	compress, ratioS, info, flush := t.nextInt() == 1, t.next(), t.nextInt() == 1, t.nextInt() == 1
 	var ratio float64
@@ -480,9 +483,28 @@ func runCrash(toks []string) (string, string) {
 			return err
 		}))
 	}
+	leftover := ""
+	var leftoverContent []byte
+	if scen == 1 {
+		leftover = "v-0001.warc"
+		if compress {
+			leftover += ".gz"
+		}
+		leftover += ".open"
+		whole := serializeRecord("1.1", [][2]string{{"WARC-Type", "resource"}, {"WARC-Record-ID", "<urn:uuid:eeeeeeee-0000-0000-0000-000000000000>"},
+			{"WARC-Date", "2021-05-06T07:08:09Z"}, {"Content-Type", "text/plain"}, {"Content-Length", "3"}}, []byte("old"), "\r\n")
+		leftoverContent = append(append([]byte{}, whole...), whole[:len(whole)/2]...)
+		if compress {
+			leftoverContent = append(gzipMember(whole), gzipMember(whole)[:20]...)
+		}
+		os.WriteFile(filepath.Join(out, leftover), leftoverContent, 0o644)
+	}
 	var snaps []snapshot
 	var trace []string
 	acked := 0
+	var wref *gowarc.WarcFileWriter
+	mids := 0
+	rotDone := make(chan struct{}, 8)
 	takeSnap := func(p string) {
 		s := snapshot{point: p, files: map[string][]byte{}, acked: acked}
 		ents, _ := os.ReadDir(out)
@@ -499,10 +521,23 @@ func runCrash(toks []string) (string, string) {
 		if !strings.HasPrefix(p, "fs:write") {
 			trace = append(trace, strings.TrimPrefix(p, "fs:"))
 		}
+		if scen == 2 && p == "fs:write-mid" {
+			if mids == scenK && wref != nil {
+				// Rotate from another goroutine while this record is half written; it must wait
+				go func() { wref.Rotate(); rotDone <- struct{}{} }()
+				select {
+				case <-rotDone:
+					rotDone <- struct{}{}
+				case <-time.After(30 * time.Millisecond):
+				}
+			}
+			mids++
+		}
 		takeSnap(p) // the state a kill at this instant leaves behind
 	}
 	defer func() { gowarc.VerifHook = nil }()
 	w := gowarc.NewWarcFileWriter(opts...)
+	wref = w
 	type ack struct {
 		resp gowarc.WriteResponse
 		at   int // number of acks before this one
@@ -526,9 +561,24 @@ func runCrash(toks []string) (string, string) {
 			}
 		}
 	}
+	if scen == 2 && mids > scenK {
+		select {
+		case <-rotDone:
+		case <-time.After(2 * time.Second):
+		}
+	}
 	w.Close()
 	takeSnap("end")
 	final := snaps[len(snaps)-1].files
+	if leftover != "" {
+		// the leftover of the killed process must never be written to
+		for si, s := range snaps {
+			if !bytes.Equal(s.files[leftover], leftoverContent) {
+				return fmt.Sprintf("snap=%d", si), "FAIL:crash-unsafe:the in-progress file left by an earlier process was written to"
+			}
+			delete(s.files, leftover)
+		}
+	}
 	// the final state: every file is final-named and a complete WARC file
 	for nme, content := range final {
 		if strings.HasSuffix(nme, ".open") {
